@@ -386,6 +386,10 @@ class TextXVisitor(RRELVisitor):
             self.grammar_parser.dprint("RESOLVING MODEL PARSER: second_pass")
 
         self._resolve_rule_refs(self.grammar_parser, model_parser)
+        if isinstance(model_parser.comments_model, RuleCrossRef):
+            # `Comment` is a single rule reference (e.g. Comment: LineComment;)
+            # which is resolved by now.
+            model_parser.comments_model = self.metamodel["Comment"]._tx_peg_rule
         self._determine_rule_types(model_parser.metamodel)
         self._resolve_cls_refs(self.grammar_parser, model_parser)
 
